@@ -43,6 +43,7 @@ func main() {
 	repo := fs.String("repo", "/repo", "path of the govalid working tree")
 	coq := fs.String("coq", "", "output .v file")
 	meta := fs.String("meta", "", "meta.json written by translate / read by driver")
+	obs := fs.String("obs", "", "observations of the CEL driver (celcoq)")
 	mod := fs.String("module", "GVGen", "Coq logical prefix (informational)")
 	_ = mod
 	_ = fs.Parse(os.Args[2:])
@@ -55,6 +56,8 @@ func main() {
 		driver(load(*in), *dir, *meta)
 	case "celdriver":
 		celDriver(load(*in), *dir, *meta)
+	case "celcoq":
+		celCoq(*in, *dir, *obs, *coq)
 	default:
 		die("unknown subcommand %s", os.Args[1])
 	}
